@@ -55,7 +55,7 @@ def run(ctx):
             "coverage": {"evaluations": len(cases), "distinct_nontrivial": nt,
                          "exhaustive": ctx.tier != "quick",
                          "rule": "grid n_steps<=9 (quick: 40 sampled; thorough: full grid n<=12), burn_in<n, thinning 1..4, 1 or 3 chains; three scripted (one with a reverse lax.scan sweep inside the kernel) "
-                                 "deterministic kernels (one saving a second diagnostic) compared with the model exactly, plus the real mh kernel under seed: "
+                                 "deterministic kernels (optionally saving a second diagnostic, or composite: the step accept at the root followed by a namespaced sub-move diagnostic also called accept) compared with the model exactly, plus the real mh kernel under seed: "
                                  "thinned run vs slice of the un-thinned run with the same key (float bit patterns); non-trivial = n>=2 and (burn>0 or thin>1)",
                          "histogram": {"kinds": Counter(c["kind"] for c in cases),
                                        "chains": Counter(str(c.get("nchains")) for c in cases),
